@@ -209,6 +209,21 @@ def check_tables(ctx):
         ctx.unknown('T9.plus', parse_qsl.fq, "no .replace('+', ...) found", parse_qsl.loc)
     check_make_quote_map(ctx, prog.func(MOD + '._make_quote_map'))
     # _HEX_CHAR_MAP ------------------------------------------------------------------
+    if '_HEX_CHAR_MAP' not in mod.assigns:
+        # no decoding table: decoding computed on the fly.  int(text, 16) is not a validator of %XX escapes -- it accepts a sign,
+        # surrounding blanks and underscores ('%+A', '% 1', '%1_') -- so a decoder built on it turns text that is not an escape
+        # into bytes, unless both characters were checked to be hex digits first
+        utb = prog.func(MOD + '.unquote_to_bytes')
+        ints = [n for n in ast.walk(utb.node) if isinstance(n, ast.Call) and call_name(n) == 'int' and len(n.args) == 2 and
+                isinstance(n.args[1], ast.Constant) and n.args[1].value == 16]
+        checked = any(isinstance(n, ast.Compare) and any(isinstance(o, (ast.In, ast.NotIn)) for o in n.ops) and
+                      'hexdigits' in txt(n) for n in ast.walk(utb.node)) or \
+            any(isinstance(n, ast.Call) and isinstance(n.func, ast.Attribute) and n.func.attr in ('fullmatch', 'match') for n in ast.walk(utb.node))
+        if ints and not checked:
+            ctx.ob('T12.hex', utb.fq, 'only well-formed %XX escapes are decoded (int(text, 16) also accepts signs, blanks and underscores)',
+                   False, loc='%s:%d' % (mod.relpath, ints[0].lineno), detail=txt(ints[0]))
+            return
+        raise AnalysisError('anchor vanished: urlutils._HEX_CHAR_MAP (percent-decoding table) and no recognisable replacement')
     hexmap = const('_HEX_CHAR_MAP')
     import string
     want = {(a + b).encode('ascii'): bytes([int(a + b, 16)]) for a in string.hexdigits for b in string.hexdigits}
